@@ -7,6 +7,22 @@ TRUST = ('rustc MIR construction + type checker (nightly 1.97), the mirfacts dri
          '(lint/extern_models.py), dependency crates not analysed; see DESIGN.md 2.1')
 
 CLAIMS = {
+ 'C09': dict(
+    text='Static, all 2^32 patterns x 12 strengths and all sizes: K1 the scalar kernel (helpers inlined, if-converted) has, for each of A,B,C,D, the same '
+         'canonical form as the Annex J formulas written out with truncating division (so it equals them on every input); K2 each of the 8 lanes of the vector '
+         'kernel has that same canonical form (arithmetic shift and truncating division are distinct operators; found D10: shifts instead of divisions - fixed); '
+         'G1/G2 from the def-use expressions of the kernel arguments: horizontal pass rows edge_y-2..edge_y+1 as A..D in vector chunks and scalar remainder alike, '
+         'vertical pass columns 4..7 of `row[2..]` 8-sample chunks (= image columns 8m+6..8m+9) read, filtered and written back in place, vector octets and remainder '
+         'rows alike; DB1/DB2 edge positions and guards (edges only where all four samples exist); G3 copy, horizontal then vertical, length unchanged, input read-only. '
+         'Position independence holds by construction: the kernels receive only the four samples and the strength.',
+    technique='if-conversion + canonical-form equality (kernel vs written-out Annex J; vector lanes vs scalar); def-use expression matching for edge geometry', ref='6/C09'),
+ 'C07': dict(
+    text='Static, all 2^24 (Y,Cb,Cr) triples at once: the straight-line SIMD kernel is if-converted to one expression per lane (wide operators modelled '
+         'lane-wise) and its canonical form (exact linear forms, sorted commutative operators, clamp = min/max) is compared structurally with the BT.601 '
+         'studio-range formula in 16.16 fixed point, whose five coefficients the checker derives itself from Kr=0.299, Kb=0.114, 255/219, 255/224 '
+         '(76309, 104597, -53279, -25675, 132201). Equality of canonical forms is equality of functions; lane l uses Y[l], Cb[l/2], Cr[l/2]; bytes R,G,B,255. '
+         'The "within 1 of the real formula", monotonicity and no-i32-overflow clauses are evaluated from the coefficients.',
+    technique='if-conversion + canonical-form equality against a computed specification (translation validation of one kernel, no execution)', ref='6/C07'),
  'C16': dict(
     text='Static, all widths >= 1 x all heights x strengths 1..12 (the documented preconditions, taken as entry contracts): the C01 engine applied to '
          'deblock::deblock - 169 obligations: every Assert / panicking call in the 15 bodies is discharged by the interval reading (split_at_mut chains via '
